@@ -64,7 +64,12 @@ SEPS = [', ', ',', ' , ', ',\n', '\n,']
 
 def list_cases(tier):
     items = ITEMS + ITEMS_EXT
+    nested = ['a', 't.a', 'a x', 'a as x', 'b y', '1', 'f(a)', 'f(a) z', 'a + 1 w', 'case when a then 1 end c', '*']
     pos = [('select', 'select {L} from t', items), ('from', 'select 1 from {L} where 1 = 1', FROM_ITEMS),
+           ('select-in-subquery-as', 'select s.x from (select {L} from t) as s', nested),
+           ('select-in-cte', 'with w as (select {L} from t) select 1 from w', nested),
+           ('select-in-in-subquery', 'select 1 from t where x in (select {L} from u)', nested),
+           ('from-in-subquery-as', 'select 1 from (select 1 from {L}) as s', FROM_ITEMS[:7]),
            ('group-by', 'select 1 from t group by {L}', ['a', 't.a', '1', 'f(a)', 'a + 1']),
            ('order-by', 'select 1 from t order by {L}', ['a', 't.a desc', '1', 'a asc', 'b', 'a desc nulls last'])]
     for pn, tmpl, its in pos:
